@@ -21,9 +21,10 @@ class HistGen:
     """generates one history; tracks just enough state (mode, pending ids, a bound on the record count) to keep
     requests meaningful.  kind: good | partialwait | vardnodata | f2"""
 
-    def __init__(self, rng, n, hid, kind, nr0, fmt, length):
+    def __init__(self, rng, n, hid, kind, nr0, fmt, length, aggr=0):
         self.r, self.n, self.kind = rng, n, kind
-        self.lines = ['HIST %s n=%d nr0=%d fmt=%d' % (hid, n, nr0, fmt)]
+        self.aggr = aggr
+        self.lines = ['HIST %s n=%d nr0=%d fmt=%d' % (hid, n, nr0, fmt) + (' aggr=%d' % aggr if aggr else '')]
         self.ops = []
         self.indep = False
         self.pending = [[] for _ in range(n)]       # (id, isRec, recEnd) in posting order
@@ -348,15 +349,17 @@ def run_check(tier, seed):
         for n in ns:
             for i in range(ngood):
                 k += 1
-                hists.append(HistGen(rng, n, 'g%d' % k, 'good', rng.range(0, 3), rng.choice([1, 2, 5]), rng.range(12, 30)).build())
+                # a third of the histories run with intra-node aggregation (hint nc_num_aggrs_per_node = 1..n-1)
+                ag = rng.range(1, n - 1) if rng.chance(1, 3) else 0
+                hists.append(HistGen(rng, n, 'g%d' % k, 'good', rng.range(0, 3), rng.choice([1, 2, 5]), rng.range(12, 30), aggr=ag).build())
             for kind in ('partialwait', 'vardnodata'):
                 for i in range(2 if tier == 'quick' else 8):
                     k += 1
-                    hists.append(HistGen(rng, n, '%s%d' % (kind[0], k), kind, rng.range(0, 3), rng.choice([1, 2, 5]), rng.range(2, 12)).build())
+                    hists.append(HistGen(rng, n, '%s%d' % (kind[0], k), kind, rng.range(0, 3), rng.choice([1, 2, 5]), rng.range(2, 12), aggr=(rng.range(1, n - 1) if rng.chance(1, 3) else 0)).build())
         f2 = []
         for n in (ns[:2] if tier == 'quick' else ns):
             k += 1
-            f2.append(HistGen(rng, n, 'f%d' % k, 'f2', rng.range(0, 2), 1, rng.range(1, 6)).build())
+            f2.append(HistGen(rng, n, 'f%d' % k, 'f2', rng.range(0, 2), 1, rng.range(1, 6), aggr=(1 if k % 2 else 0)).build())
         # the minimal witnesses of the Lean counterexample theorems, replayed verbatim
         class Fixed:
             pass
@@ -417,13 +420,14 @@ def run_check(tier, seed):
         V.cov['traces_validated_against_impl'] = len(allh) - len(set(t[0] for t in tie_diffs))
         V.cov['rule'] = ('seeded histories of 12-30 calls (collective / vard / independent / nonblocking puts to a record variable with new and existing record '
                          'indices, zero-length and failing requests, wait_all / wait with NC_REQ_ALL, full id lists and first-k-of-the-queue lists, fill_var_rec, begin/end_indep_data, '
-                         'sync, sync_numrecs, redef+enddef, close+open, calls in the wrong mode) on CDF-1/2/5 files; plus histories ending in one of the three defective calls and '
+                         'sync, sync_numrecs, redef+enddef, close+open, calls in the wrong mode) on CDF-1/2/5 files, a third of them with the hint nc_num_aggrs_per_node = 1..n-1 (intra-node aggregation path); plus histories ending in one of the three defective calls and '
                          'the minimal witnesses of the counterexample theorems. one evaluation = one call, after which every rank\'s record count and the header bytes are compared '
                          'with the model and with the specification (ghost) values. non-trivial = the call changed a count or the header, or is a wait/sync/mode switch; '
                          'distinct = distinct (call, counts before) pairs')
         V.cov['distribution'] = dist
         V.cov['outcomes'] = stats
         V.cov['ranks'] = ns
+        V.cov['histories_with_aggregation_hint'] = len([h for h in allh if getattr(h, 'aggr', 0)])
         V.cov['model_variant_fx'] = fx
         V.cov['samples'] = [hists[0].lines, hists[len(hists) // 2].lines[:12],
                             'theorem numrecs_inv_partial (fx) (w0) (hI : Inv w0) (ops) (hg : GoodRun fx w0 ops) : ∃ w, run fx w0 ops = some w ∧ Inv w ∧ Mono w0 w']
